@@ -57,6 +57,10 @@ def _case(draw):
         d = [draw(gen.f(0.05, 1.0)) for _ in range(3)]
         links.append({"name": f"link{i}", "mass": draw(gen.f(0.2, 5.0)), "inertial": draw(_pose()), "I": d,
                       "Irot": draw(gen.rotvec(min_exp=-2, near_max=False))})
+        if draw(st.integers(0, 3)) == 0:
+            # <inertial> without an <origin> element: the inertial frame is the link frame
+            links[-1]["inertial"] = {"xyz": [0.0, 0.0, 0.0], "rpy": [0.0, 0.0, 0.0]}
+            links[-1]["no_origin"] = True
     joints = []
     depth = {0: 0}
     nchild = {}
@@ -87,7 +91,11 @@ def _case(draw):
             j["qd"] = [draw(gen.f(-2, 2)) for _ in range(6)]
         j["given"] = draw(st.integers(0, 5)) > 0  # sometimes the joint is left out of the dictionaries (defaults)
         joints.append(j)
-    return {"links": links, "joints": joints, "floating_root": draw(st.booleans()),
+    # massless marker frames (tcp, camera, ...) attached by fixed joints; they are leaves and carry no body. The position
+    # in the file decides where they appear among their parent's children.
+    markers = [{"parent": draw(st.integers(0, nlinks - 1)), "at": draw(st.integers(0, max(0, nlinks - 1))), "origin": draw(_pose())}
+               for _ in range(draw(st.sampled_from([0, 0, 1, 2])))]
+    return {"links": links, "joints": joints, "markers": markers, "floating_root": draw(st.booleans()),
             "r_OR": [draw(gen.f(-2, 2)) for _ in range(3)], "psi_R": draw(gen.rotvec(min_exp=-2, near_max=False)),
             "v_R": [draw(gen.f(-2, 2)) for _ in range(3)], "omega_R": [draw(gen.f(-2, 2)) for _ in range(3)],
             "moving_root": draw(st.booleans())}
@@ -149,13 +157,21 @@ def urdf_text(spec):
     out = ['<?xml version="1.0"?>', '<robot name="generated">']
     for l in spec["links"]:
         I = _inertia(l)
-        out.append(f'  <link name="{l["name"]}"><inertial><origin xyz="{f(l["inertial"]["xyz"])}" rpy="{f(l["inertial"]["rpy"])}"/>'
+        origin = "" if l.get("no_origin") else f'<origin xyz="{f(l["inertial"]["xyz"])}" rpy="{f(l["inertial"]["rpy"])}"/>'
+        out.append(f'  <link name="{l["name"]}"><inertial>{origin}'
                    f'<mass value="{float(l["mass"])!r}"/><inertia ixx="{float(I[0,0])!r}" ixy="{float(I[0,1])!r}" ixz="{float(I[0,2])!r}" iyy="{float(I[1,1])!r}" '
                    f'iyz="{float(I[1,2])!r}" izz="{float(I[2,2])!r}"/></inertial></link>')
+    jlines = []
     for j in spec["joints"]:
         lim = '<limit lower="-10" upper="10" effort="100" velocity="100"/>' if j["type"] in ("revolute", "prismatic") else ""
-        out.append(f'  <joint name="{j["name"]}" type="{j["type"]}"><parent link="link{j["parent"]}"/><child link="link{j["child"]}"/>'
-                   f'<origin xyz="{f(j["origin"]["xyz"])}" rpy="{f(j["origin"]["rpy"])}"/><axis xyz="{f(j["axis"])}"/>{lim}</joint>')
+        jlines.append(f'  <joint name="{j["name"]}" type="{j["type"]}"><parent link="link{j["parent"]}"/><child link="link{j["child"]}"/>'
+                      f'<origin xyz="{f(j["origin"]["xyz"])}" rpy="{f(j["origin"]["rpy"])}"/><axis xyz="{f(j["axis"])}"/>{lim}</joint>')
+    for k, mk in enumerate(spec.get("markers", [])):
+        out.append(f'  <link name="marker{k}"/>')
+        jlines.insert(min(mk["at"], len(jlines)),
+                      f'  <joint name="marker_joint{k}" type="fixed"><parent link="link{mk["parent"]}"/><child link="marker{k}"/>'
+                      f'<origin xyz="{f(mk["origin"]["xyz"])}" rpy="{f(mk["origin"]["rpy"])}"/></joint>')
+    out.extend(jlines)
     out.append("</robot>")
     return "\n".join(out)
 
@@ -348,5 +364,9 @@ def check(spec):
     moving = any(j["type"] != "fixed" and j["given"] and np.any(np.abs(np.atleast_1d(
         j["q"]["xyz"] if isinstance(j.get("q"), dict) else j.get("q", 0.0))) > 0) for j in spec["joints"])
     res.nontrivial = max(depth.values()) >= 2 and moving
+    if spec.get("markers"):
+        res.label("massless_marker_frames")
+    if any(l.get("no_origin") for l in spec["links"]):
+        res.label("inertial_without_origin")
     res.label(*["joint:" + t for t in types], "root:floating" if spec["floating_root"] else "root:fixed")
     return res
